@@ -173,6 +173,11 @@ func (c *c11) emitBuild(p protocol.Protocol, cfg, label, info string, br buildRe
 		}
 	}
 	desc["outcome"] = outcome
+	// configurations that tighten a size limit below what the centre request needs say nothing about completeness
+	// (the model comparison still applies to them)
+	if strings.HasPrefix(cfg, "hashlen=") || strings.HasPrefix(cfg, "deltasize=") || strings.HasPrefix(cfg, "opsize=") {
+		valid = false
+	}
 	if valid && outcome != "accepted" {
 		c.r.Direct = append(c.r.Direct, out.Direct{Oracle: "built_from_valid_inputs_is_accepted", What: outcome, Case: desc})
 	}
